@@ -62,7 +62,7 @@ class GeneInterval(AbstractFeatureIntervalCollection):
         if not transcripts:
             raise InvalidAnnotationError("GeneInterval must have transcripts")
 
-        self.transcripts = transcripts
+        self.transcripts = list(transcripts)
         self.gene_id = gene_id
         self.gene_symbol = gene_symbol
         self.gene_type = gene_type
